@@ -503,7 +503,9 @@ impl LiveActor {
                 debug!(?reason, "remote abort, already syncing");
                 // Our dial is over. Unless a session accepted from that peer took the slot over in
                 // the meantime, free it: otherwise no sync with this peer is ever started again.
-                self.state.abort_connect(&namespace, peer);
+                if self.state.abort_connect(&namespace, peer) {
+                    self.sync_with_peer(namespace, peer, SyncReason::Resync);
+                }
             }
             res => {
                 self.on_sync_finished(
